@@ -212,6 +212,9 @@ Record moved (from to : addr) (s s' : state) : Prop := {
   mv_gov : gov s' = gov s;
   mv_vals : vals s' = vals s;
   mv_accts : accts s' = accts s;
+  (* vesting: neither account object changes (the source keeps its vesting schedule and its DelegatedVesting
+     bookkeeping, the target stays whatever it was) and the bank's locked amounts are what they were *)
+  mv_locked : locked s' = locked s;
   mv_cfg : cfg s' = cfg s;
   mv_clock : now s' = now s /\ height s' = height s;
   mv_rec : forall a, has_record s' a = (a =? to) || (a =? from) || has_record s a;
